@@ -5,6 +5,7 @@ import (
 	"fmt"
 	"github.com/jsightapi/jsight-schema-core/notations/jschema"
 	"os"
+	"sort"
 	"strings"
 	"sync"
 	"time"
@@ -155,9 +156,41 @@ func runC10(c *core.Ctx) error {
 	maxTrace := c.Pick(2500, 12000)
 	stride := c.Pick(97, 251)
 	n := 0
+	// traced: a stride sample, and every history that holds a call (operation, content of the object, contents
+	// registered on it) no traced history has shown yet - so that every such call is validated by TLC at least once
+	seenSig := map[string]bool{}
+	var sigMu sync.Mutex
+	newSig := func(l string) bool {
+		var h apiHist
+		if json.Unmarshal([]byte(l), &h) != nil {
+			return false
+		}
+		content := map[string]string{}
+		regs := map[string][]string{}
+		fresh := false
+		for _, st := range h.Hist {
+			switch st.Op {
+			case "New":
+				content[st.Obj] = st.Arg
+			case "AddType":
+				regs[st.Obj] = append(regs[st.Obj], content[st.Arg])
+			default:
+				r := append([]string{}, regs[st.Obj]...)
+				sort.Strings(r)
+				sig := st.Op + "|" + content[st.Obj] + "|" + strings.Join(r, ",")
+				if !seenSig[sig] {
+					seenSig[sig] = true
+					fresh = true
+				}
+			}
+		}
+		return fresh
+	}
 	res, err := tlc.Run(tlc.Opts{Module: "SchemaApi", Cfg: cfg, Workers: 16, Timeout: 40 * time.Minute, OnLine: func(l string) {
+		sigMu.Lock()
+		defer sigMu.Unlock()
 		n++
-		if (n+int(c.Seed))%stride == 0 && traced < maxTrace {
+		if ((n+int(c.Seed))%stride == 0 && traced < maxTrace) || newSig(l) {
 			traced++
 			l = l[:len(l)-1] + `,"trace":true}`
 		}
